@@ -64,6 +64,16 @@ func buildRequest() *signature.SignRequest {
 		a := attrSpec{key: rt.Havoc[any](q + ".key"), crit: rt.Bool(q + ".critical"), val: rt.Havoc[any](q + ".Value")}
 		// integer keys range over all int64 except go-cose's other generic parameters (kid, IV, countersignatures, typ, …),
 		// whose values go-cose type-checks: outside the claim
+		if (n > 1 || focus >= 2) && !rt.Thorough() {
+			// quick tier: with two attributes, and where the signer / late failures are the subject, the keys are texts or
+			// (un)signed integers; every other key type is covered by the single-attribute paths of the attribute
+			// harness (the thorough tier has the full product)
+			switch a.key.(type) {
+			case string, int64, uint64:
+			default:
+				rt.Assume(false)
+			}
+		}
 		if c, _, kn := keyClass(a.key); c == 2 {
 			rt.Assume(rt.Or(kn < 4, kn > 16))
 		}
@@ -109,11 +119,38 @@ func keyClass(k any) (class int, text string, num int64) {
 		return 2, "", x
 	case int:
 		return 2, "", int64(x)
+	case uint64:
+		// an unsigned label is the integer label of the same value; beyond int64 the format as implemented by go-cose
+		// cannot represent it (UnmarshalCBOR reads integer labels into int64): class 0
+		if x > 1<<63-1 { // symbolic: forks
+			return 0, "", 0
+		}
+		return 2, "", int64(x)
 	}
 	return 0, "", 0
 }
 
 var specText = []string{"io.cncf.notary.expiry", "io.cncf.notary.signingScheme", "io.cncf.notary.signingTime", "io.cncf.notary.authenticSigningTime"}
+
+// textsValid: every text of the request that the envelope carries is valid UTF-8 (the codec's domain)
+func textsValid(req *signature.SignRequest, looked bool) bool {
+	ok := rt.And(stubValidStringC(req.Payload.ContentType), stubValidStringC(req.SigningAgent))
+	for _, a := range attrs {
+		// looked: only keys / values whose dynamic type the code under test has looked at (a refusal cannot be due to
+		// the others, and deciding their type here would only multiply paths)
+		if !looked || rt.Resolved(a.key) {
+			if t, isText := a.key.(string); isText {
+				ok = rt.And(ok, stubValidStringC(t))
+			}
+		}
+		if !looked || rt.Resolved(a.val) {
+			if t, isText := a.val.(string); isText {
+				ok = rt.And(ok, stubValidStringC(t))
+			}
+		}
+	}
+	return ok
+}
 
 // invalidAttrs: repeated key, key colliding with a specification-defined header, key the format cannot represent
 func invalidAttrs() bool {
@@ -193,7 +230,7 @@ func signCOSE() {
 	rt.Assert(rt.Implies(inv, err != nil), "C16.cose.invalid.request.rejected")
 	if focus == 1 {
 		// with an environment that does not fail, every valid request (with a well-formed content type) is signed
-		rt.Assert(rt.Implies(err != nil, rt.Or(inv, ctyChoice != 0)), "C08.cose.valid.request.succeeds")
+		rt.Assert(rt.Implies(err != nil, rt.Or(rt.Or(inv, rt.Not(textsValid(req, true))), ctyChoice != 0)), "C08.cose.valid.request.succeeds")
 	}
 	// ---- C15.L3
 	wantTS := rt.And(isX509, req.Timestamper != nil)
@@ -236,6 +273,9 @@ func signCOSE() {
 		}
 	}
 	rt.Assert(rt.StrEq(c.SignerInfo.UnsignedAttributes.SigningAgent, req.SigningAgent), "C08.cose.agent")
+	// the emitted object is inside the domain on which the CBOR round trip is the identity (the bytes are not
+	// re-parsed): the decoder refuses a text string that is not valid UTF-8
+	rt.Assert(textsValid(req, false), "C08.cose.emitted.texts.are.valid.utf8")
 	// the bytes handed to the signer are the Sig_structure over this message's protected bytes and the request's payload:
 	// exactly what a verifier of the emitted message recomputes
 	handed := false
